@@ -197,6 +197,22 @@ def check_c01(ctx):
     # one attribute, two sources, values of different kinds
     for s in [x for x in table if x["kind"] == "attrmerge"]:
         add({"main.sysl": merge_program(s)}, what=s)
+    # near-misses of an import statement
+    for s in [x for x in table if x["kind"] == "importline"]:
+        body = "App:\n    Ep:\n        ...\n"
+        if s["place"] == "first":
+            text = s["line"] + "\n" + body
+        elif s["place"] == "second":
+            text = "import dep2\n" + s["line"] + "\n" + body
+        else:
+            text = body + s["line"]
+        files = {"dep2.sysl": "Dep2:\n    Ep:\n        ...\n", "dep3.sysl": "Dep3:\n    Ep:\n        ...\n"}
+        if s["where"] == "root":
+            files["main.sysl"] = text
+        else:
+            files["main.sysl"] = "import dep\nRoot:\n    Ep:\n        ...\n"
+            files["dep.sysl"] = text
+        add(files, what=s)
     # near-misses of valid generated programs
     progs = fam_frontend.programs(ctx, 40 if quick else 400, seed_off=1)
     for p in progs:
@@ -270,5 +286,6 @@ def check_c01(ctx):
         "compiles run in-process in a guarded goroutine (recover only classifies the panic) with a 10 s bound, re-run with 30 s before a hang is reported",
         "a fatal runtime error (stack exhaustion) kills the driver process: the orchestrator attributes it to the running scenario (event `fatal`, which the life cycle cannot explain) and restarts the driver",
         "one attribute given to one element by two sources (collector statement, re-declaration, annotation, nested REST block, event and subscriber, mixin) with every pair of value kinds (string, list, empty list, nested list, ~modifier, multi-line, absent)",
+        "near-misses of an import statement (the bare keyword, keyword and tab, two paths, a dangling `as`, ...) in the root or an imported file, as first line, after an import, or as the last bytes of the file",
         "rings of 1..4 declarations through every referring relation (mixin, alias, union, field, call, subscription, view call, foreign key), in one file and spread over imported files",
     ])
